@@ -215,6 +215,10 @@ where
 
     // Keep on running forever until we receive the instruction to stop.
     while keep_running {
+        #[cfg(clock_bound_verif)]
+        if crate::verif::fault_point("writer:loop") == crate::verif::FaultAction::Return {
+            return;
+        }
         match ctx.mbox.recv() {
             Ok(Message::ClockErrorBoundData((tracking, phc_error_bound, as_of))) => {
                 // TODO use phc_error_bound here
@@ -243,6 +247,10 @@ where
 /// Entry point to this thread.
 pub fn run(ctx: Context, max_drift_ppb: u32) {
     info!("Starting shared memory writer thread");
+    #[cfg(clock_bound_verif)]
+    if crate::verif::fault_point("writer:start") == crate::verif::FaultAction::Return {
+        return;
+    }
     // Create a writer to update the clock error bound shared memory segment
     let writer = match ShmWriter::new(Path::new(CLOCKBOUND_SHM_DEFAULT_PATH)) {
         Ok(writer) => {
@@ -261,6 +269,17 @@ pub fn run(ctx: Context, max_drift_ppb: u32) {
     // Pack the writer into the updater structure.
     let updater = ShmUpdater::new(writer, max_drift_ppb);
     process_messages(ctx, updater)
+}
+
+/// Entry points for the verification harness (the items they reach are private to this module).
+#[cfg(clock_bound_verif)]
+pub mod verif_api {
+    use super::*;
+
+    /// Run the real message loop of the writer thread over an arbitrary segment writer.
+    pub fn process_messages_with<W: ShmWrite>(ctx: Context, writer: W, max_drift_ppb: u32) {
+        process_messages(ctx, ShmUpdater::new(writer, max_drift_ppb))
+    }
 }
 
 #[cfg(test)]
